@@ -63,7 +63,7 @@ PROPS = {
     "C14": P("GotranxProofs.Properties.C14",
              ["Gx.C14.evalVec_pointwise", "Gx.C14.scalarOnly_fails", "Gx.C14.scalarOnly_single", "Gx.C14.allSome_map", "Gx.C14.no_source_construct_scalarOnly"],
              [],
-             ns.make_run(be.c14_case, 25, 1000, be.c14_cfg, extra=be.cond_extra), be.c14_case),
+             ns.make_run(be.c14_case, 25, 1000, be.c14_cfg, extra=be.c14_extra), be.c14_case),
     "C11": P("GotranxProofs.Properties.C11",
              ["Gx.C11.writer_relations_in_grammar", "Gx.C11.writer_connectives_in_grammar", "Gx.C11.reload_preserves_values"],
              ["Gx.Pins.relop_table", "Gx.Pins.writer_overrides", "Gx.Pins.grammar_names", "Gx.Pins.grammar_keywords", "Gx.Pins.grammar_ladder"],
